@@ -17,7 +17,8 @@ Requests
   (one `<out>@…` entry per API call: result and bookkeeping after the call) where `<stream>` has a `#` token in
   front of the commands of every API call (the first group is `__init__`), commands are rendered
   `so:k:v sl:L ds:name:arity df:name:sort as:id pu:n po:n ra cs gv:id ex`, a command the strict solver rejected
-  is prefixed with `!`, levels are separated by `;` (outermost first), names by `,` (sorted).
+  is prefixed with `!`, levels are separated by `;` (outermost first; `-` = no level at all), names by `,` (sorted).
+* `smtsolver-lenient …`: the same against a solver that acknowledges a pop beyond its stack (drops all levels but the first).
 * `strict <cmd…>` with `cs=<verdict>`: `accept` or `reject <index>`.
 -/
 open PySMT PySMT.StrictSolver PySMT.SmtSolver
@@ -104,6 +105,7 @@ def showErr : Err → String
   | .badValue => "bad-value"
   | .hang => "hang"
   | .closed => "closed"
+  | .indexError => "index-error"
 
 def sortedNames (l : List String) : String := ",".intercalate (l.toArray.qsort (· < ·)).toList
 
@@ -123,6 +125,19 @@ def scripted : Oracle where
 
 def scriptedSolver (vs : List Verdict) : Solver := { Solver.strict scripted with init := (State.init, vs) }
 
+/-- test double: the scripted strict solver, except that a pop beyond the stack is acknowledged and removes every level
+    but the first (K compares the wrapper model with the wrapper on such a process, `refsolver.py --lenient-pop`) -/
+def lenientSolver (vs : List Verdict) : Solver where
+  σ := State × List Verdict
+  init := (State.init, vs)
+  respond := fun s c =>
+    match c with
+    | .pop n =>
+      if !s.1.exited && s.1.logicSet && decide (n ≥ s.1.levels.length) then
+        (({ s.1 with levels := s.1.levels.drop (s.1.levels.length - 1), satMode := false }, s.2), .success)
+      else StrictSolver.respond scripted s c
+    | c => StrictSolver.respond scripted s c
+
 /-- render the events of one group: commands, `!` in front of a command answered by `(error …)` -/
 def showEvents : List Event → List String
   | .send c :: .recv (.error _) :: r => ("!" ++ showCmd c) :: showEvents r
@@ -131,7 +146,7 @@ def showEvents : List Event → List String
   | [] => []
 
 def levelsStr {α : Type} (f : α → String) (ls : List (List α)) : String :=
-  ";".intercalate (ls.reverse.map fun l => sortedNames (l.map f))
+  if ls.isEmpty then "-" else ";".intercalate (ls.reverse.map fun l => sortedNames (l.map f))
 
 def runShow (S : Solver) (strictLevels : S.σ → Nat) (logic : String) (ops : List Api) : String := Id.run do
   let mut w := create S logic
@@ -153,6 +168,11 @@ def answer (line : String) : String :=
     let verdicts := if vs == "-" then some [] else (vs.splitOn ",").mapM parseVerdict
     match verdicts, ops.mapM parseApi with
     | some vs, some ops => runShow (scriptedSolver vs) (fun s => s.1.levels.length) logic ops
+    | _, _ => "bad-op"
+  | "smtsolver-lenient" :: logic :: vs :: ops =>
+    let verdicts := if vs == "-" then some [] else (vs.splitOn ",").mapM parseVerdict
+    match verdicts, ops.mapM parseApi with
+    | some vs, some ops => runShow (lenientSolver vs) (fun s => s.1.levels.length) logic ops
     | _, _ => "bad-op"
   | "strict" :: cmds =>
     match cmds.mapM parseCmd with
